@@ -63,3 +63,280 @@ def C08(run):
         ["CborWire.StreamDecode is the requirement (RFC 8949 initial-byte table, cross-checked against the Appendix-B range table by MC_Wire)",
          "ASan/UBSan (dbg build) observe out-of-window reads; the spec judges status/read/required/callback/arguments/allocations",
          "statelessness and suffix-independence are judged by validating every call independently against the same function (repeated heads, varied trailing bytes)"])
+
+
+# ---------------------------------------------------------------------------------------------- cbor_load family
+LOAD_SRC = ["vh.c", "h_tree.c", "h_load.c"]
+_re_cur = re.compile(r"CURRENT-INPUT (\w+) idx=(\d+) hex=([0-9a-f]*)")
+
+
+def _record_loads(run, exe, args, out, what, max_crashes=3, env=None, timeout=1800):
+    """Run h_load with crash-resume. Appends the trace to `out`. Returns number of crashes reported."""
+    skip, crashes = -1, 0
+    stats = {"inputs": 0, "executed": 0, "emitted": 0, "shape_failures": 0}
+    while True:
+        part = out + ".part"
+        a = (["--skip", str(skip)] if skip >= 0 else []) + list(args)
+        rc, err = run_harness(run, exe, a, part, env=env, timeout=timeout)
+        with open(out, "ab") as fo, open(part, "rb") as fi:
+            data = fi.read()
+            # a crash may leave a partial last execution: cut at the last complete one
+            if rc != 0:
+                k = data.rfind(b'{"e":"Reset"}')
+                data = data[:k] if k >= 0 else b""
+            fo.write(data)
+        os.unlink(part)
+        m = re.search(r"h_load: inputs=(\d+) executed=(\d+) emitted=(\d+) shape_failures=(\d+)", err)
+        if m:
+            for k, v in zip(("inputs", "executed", "emitted", "shape_failures"), m.groups()):
+                stats[k] += int(v) if k != "inputs" else 0
+            stats["inputs"] = int(m.group(1))
+        if rc == 0:
+            break
+        crashes += 1
+        mc = _re_cur.findall(err)
+        if mc:
+            why, idx, hx = mc[-1]
+            report_violation(run, "load-crash hex=%s" % hx[:200],
+                             "%s: cbor_load pipeline did not return normally (%s, rc=%s) on input %s\n%s" % (what, why, rc, hx[:200], err[-1200:]),
+                             {"input_hex": hx, "harness_args": a, "rc": rc, "stderr": err[-3000:]})
+            skip = int(idx)
+            if crashes >= max_crashes:
+                run.notes.append("stopped %s after %d abnormal terminations" % (what, crashes))
+                break
+        else:
+            raise Infra("h_load failed without naming an input (rc=%s): %s" % (rc, err[-1500:]))
+    return stats
+
+
+def _exec_stats(path):
+    """(executions, distinct projections, distinct nontrivial projections) measured from a decoder trace."""
+    import hashlib
+    seen, nontriv, execs = set(), set(), 0
+    cur, steps = [], 0
+    def flush():
+        nonlocal cur, steps
+        if cur:
+            h = hashlib.md5("|".join(cur).encode()).digest()
+            seen.add(h)
+            if steps >= 2:
+                nontriv.add(h)
+        cur, steps = [], 0
+    with open(path, "rb") as f:
+        for l in f:
+            if l.startswith(b'{"e":"Reset"'):
+                flush()
+                execs += 1
+            elif l.startswith(b'{"e":"step"'):
+                m = re.search(rb'"head":\[(\d+)[,\]].*?"st":"(\w+)".*?"depth":(\d+)', l)
+                cur.append("%s/%s/%s" % (m.group(1).decode(), m.group(2).decode(), m.group(3).decode()) if m else "?")
+                steps += 1
+            elif l.startswith(b'{"e":"ret"'):
+                m = re.search(rb'"code":"(\w+)"', l)
+                cur.append(m.group(1).decode() if m else "?")
+        flush()
+    return execs, len(seen), len(nontriv)
+
+
+def _judge_loads(run, trace, L, judge, what):
+    """Full machine conformance first (Trace_Decoder); every rejected execution is re-judged end to end by
+    the clauses of `judge` only (Trace_LoadE2E); only those are violations of this property."""
+    env = {"VERIF_L": str(L)}
+    res = tracecheck(run, "Trace_Decoder", trace, env=env)
+    div = 0
+    for r in res["rejects"]:
+        exf = run.path("rej-%d.ndjson" % (len(run.violations) + div + int(time.time() * 1000) % 100000))
+        with open(exf, "w") as f:
+            f.write("\n".join(r["exec"]) + "\n")
+        e2 = tracecheck(run, "Trace_LoadE2E", exf, env={"VERIF_L": str(L), "VERIF_JUDGE": judge}, shards=1)
+        hexin = ""
+        steps = [json.loads(x) for x in r["exec"] if x.startswith('{"e":"step"')]
+        sig = "load L=%s heads=%s" % (L, ";".join("%s@%s" % (",".join(map(str, s["head"])), s["off"]) for s in steps)[:400])
+        if e2["rejects"]:
+            report_violation(run, sig, "%s: execution violates %s (line %d rejected): %s" % (what, judge, e2["rejects"][0]["at"], e2["rejects"][0]["line"][:500]),
+                             {"execution": r["exec"][:400], "L": L, "judge": judge})
+        else:
+            div += 1
+            if div <= 3:
+                print("NOTE property=%s divergence from the decoder machine that does not violate %s: %s" % (run.pid, judge, r["line"][:300]))
+    res["divergences"] = div
+    return res
+
+
+def _load_check(run, judge, plans, Ls=(None,), variant="dbg", what="cbor_load", extra_runs=None, mc_cfgs=("MC_Decoder_L2",)):
+    import concurrent.futures as cf
+    mcs = [tlc_mc(run, "MC_Decoder", c, workers=NCPU) for c in mc_cfgs]
+    libs = {}
+    with cf.ThreadPoolExecutor(max_workers=4) as ex:
+        futs = {L: ex.submit(build_lib, run, variant, L) for L in Ls}
+        for L, f in futs.items():
+            libs[L] = f.result()
+    tot = {"lines": 0, "execs": 0, "distinct": 0, "nontrivial": 0, "rejects": 0, "divergences": 0, "executed": 0, "shape_failures": 0, "tlc_states": 0}
+    samples = []
+    for L in Ls:
+        lib = libs[L]
+        exe = build_harness(run, lib, "h_load", LOAD_SRC)
+        trace = run.path("load-L%s.ndjson" % (L or "dflt"))
+        open(trace, "w").close()
+        trace_e2e = run.path("load-e2e-L%s.ndjson" % (L or "dflt"))
+        open(trace_e2e, "w").close()
+        for args in plans(L):
+            e2e_only = args and args[0] == "E2E"       # deep executions: judged end to end only (linear in depth)
+            if e2e_only:
+                args = args[1:]
+            st = _record_loads(run, exe, args, trace_e2e if e2e_only else trace, "%s (L=%s)" % (what, L or 2048))
+            tot["executed"] += st["executed"]
+            tot["shape_failures"] += st["shape_failures"]
+        Lv = L or 2048
+        res = _judge_loads(run, trace, Lv, judge, what)
+        if count_lines(trace_e2e):
+            r2 = tracecheck(run, "Trace_LoadE2E", trace_e2e, env={"VERIF_L": str(Lv), "VERIF_JUDGE": judge})
+            for r in r2["rejects"]:
+                steps = [json.loads(x) for x in r["exec"] if x.startswith('{"e":"step"')]
+                sig = "load L=%s heads=%s" % (Lv, ";".join("%s@%s" % (",".join(map(str, s_["head"])), s_["off"]) for s_ in steps)[:400])
+                report_violation(run, sig, "%s: execution violates %s (line %d rejected): %s" % (what, judge, r["at"], r["line"][:500]),
+                                 {"execution": r["exec"][:60] + ["..."] + r["exec"][-5:], "L": Lv, "judge": judge})
+            res["lines"] += r2["lines"]; res["tlc_states"] += r2["tlc_states"]; res["rejects"] += r2["rejects"]
+            with open(trace, "ab") as fo, open(trace_e2e, "rb") as fi:
+                fo.write(fi.read())
+        ex_, d, nt = _exec_stats(trace)
+        tot["lines"] += res["lines"]; tot["execs"] += ex_; tot["distinct"] += d; tot["nontrivial"] += nt
+        tot["rejects"] += len(res["rejects"]); tot["divergences"] += res["divergences"]; tot["tlc_states"] += res["tlc_states"]
+        if len(samples) < 4:
+            samples += _sample_lines(trace, 2, lambda l: '"e":"step"' in l and '"depth":2' in l) + _sample_lines(trace, 1, lambda l: '"e":"ret"' in l and '"ok":true' in l)
+        run.log("L=%s: %d executions, %d lines validated, %d rejected, %d divergences" % (Lv, ex_, res["lines"], len(res["rejects"]), res["divergences"]))
+    return mcs, tot, samples
+
+
+def _load_evidence(run, mcs, tot, samples, rule, assumptions, extra=None):
+    cov = {"states": sum(m["distinct"] for m in mcs), "transitions": sum(m["generated"] for m in mcs),
+           "traces_validated_against_impl": tot["execs"] - tot["rejects"], "samples": samples[:6],
+           "evaluations": tot["executed"], "distinct_nontrivial": tot["nontrivial"], "distinct_projections": tot["distinct"],
+           "rule": rule, "trace_lines_validated_by_TLC": tot["lines"], "tlc_trace_states": tot["tlc_states"],
+           "rejected_executions": tot["rejects"], "machine_divergences_not_violating_property": tot["divergences"],
+           "harness_outcome_shape_failures": tot["shape_failures"], "exhaustive": False}
+    cov.update(extra or {})
+    write_evidence(run, "model_checking", cov, assumptions)
+
+
+LOAD_ASSUME = ["CborGrammar (declarative, from RFC 8949 section 3 / Appendix C and the property statements) is the oracle; MC_Decoder shows it agrees with the stack machine CborDecoder on every head string within the bound",
+               "trace lines are raw observations (window bytes, statuses, public getters, allocator counters); all judging is done by TLC",
+               "ASan/UBSan/CBOR_ASSERT (dbg build), exactly-sized input blocks and a 10 s watchdog observe what a TLA+ state cannot: stray accesses, UB, assertion failures, hangs"]
+DISTINCT_RULE = "one case = one cbor_load execution on an exactly-sized heap copy; distinct = distinct sequence of (initial byte, status, stack depth) per loop iteration + result code; non-trivial = at least two loop iterations; "
+
+
+def C01(run):
+    q = run.quick()
+    def plans(L):
+        return [["dfs", "3" if q else "5"], ["--dedup", "bytes", "2"], ["rand", "1200" if q else "20000"]]
+    mcs, tot, samples = _load_check(run, "C01", plans, what="decode-anything pipeline", mc_cfgs=("MC_Decoder_L2", "MC_Decoder_live"))
+    extra = {}
+    if not q:
+        extra = _c01_sweeps(run)
+    # the streaming decoder on the same raw bytes is covered by C08's sweep; here additionally all 1-2 byte strings
+    _load_evidence(run, mcs, tot, samples, DISTINCT_RULE + "inputs: token strings the decoder keeps reading (depth %s), every byte string <= 2 (deduplicated by projection), seeded random well-formed items with 6 single-edit neighbours each (truncate, reserved byte, insert/delete break, inflate, bit flip), nesting families" % ("3" if q else "5"),
+                   LOAD_ASSUME, extra)
+
+
+def _c01_sweeps(run):
+    """thorough: every 3-byte string with trace (deduplicated) and every 4-byte string lean, 16 processes, -O2+ASan."""
+    import concurrent.futures as cf
+    lib = build_lib(run, "o2asan")
+    exe = build_harness(run, lib, "h_load", LOAD_SRC)
+    tot = {"b3": 0, "b4": 0, "fail": 0}
+    def work(job):
+        k, lo, hi = job
+        out = run.path("sweep-%d-%d.ndjson" % (k, lo))
+        st = _record_loads(run, exe, ["--lean", "bytesk", str(k), str(lo), str(hi)], out, "exhaustive %d-byte sweep" % k, timeout=3600)
+        bad = []
+        with open(out) as f:
+            for l in f:
+                if '"shapefail"' in l:
+                    bad.append(json.loads(l)["in"])
+        return k, st["executed"], bad
+    jobs = [(3, i * 16, i * 16 + 15) for i in range(16)] + [(4, i * 8, i * 8 + 7) for i in range(32)]
+    with cf.ThreadPoolExecutor(max_workers=NCPU) as ex:
+        for k, n, bad in ex.map(work, jobs):
+            tot["b%d" % k] += n
+            for b in bad[:5]:
+                tot["fail"] += 1
+                report_violation(run, "load-shape hex=%s" % bytes(b).hex(), "outcome of cbor_load pipeline is neither (item, NONE) nor (NULL, error) or leaks, input %s" % bytes(b).hex(), {"input_hex": bytes(b).hex()})
+    return {"exhaustive_3_byte_inputs": tot["b3"], "exhaustive_4_byte_inputs": tot["b4"], "sweep_shape_failures": tot["fail"]}
+
+
+def C02(run):
+    q = run.quick()
+    def plans(L):
+        return [["dfs", "4" if q else "6"], ["dfs", "2", "all"] if q else ["dfs", "3", "all"], ["rand", "1500" if q else "25000"]]
+    mcs, tot, samples = _load_check(run, "C02", plans, what="cbor_load acceptance and tree", mc_cfgs=("MC_Decoder_L1", "MC_Decoder_L2", "MC_Decoder_L3"))
+    _load_evidence(run, mcs, tot, samples, DISTINCT_RULE + "inputs: every token string the decoder keeps reading up to %s heads (16 head classes + huge counts, argument widths cycled), every pair/triple of ALL concrete head variants, seeded random items + single-edit neighbours" % ("4" if q else "6"), LOAD_ASSUME)
+
+
+def C05(run):
+    q = run.quick()
+    def plans(L):
+        return [["dfs", "4" if q else "6"], ["rand", "2500" if q else "30000"], ["--dedup", "bytes", "2"]]
+    mcs, tot, samples = _load_check(run, "C05", plans, what="cbor_load failure report", mc_cfgs=("MC_Decoder_L1", "MC_Decoder_L2", "MC_Decoder_L3"))
+    _load_evidence(run, mcs, tot, samples, DISTINCT_RULE + "inputs as C02 (every proper prefix of every enumerated item is in the token enumeration; truncations and corruptions from the random single-edit neighbours); result struct pre-filled with 0xAB", LOAD_ASSUME)
+
+
+def C19(run):
+    q = run.quick()
+    Ls = (1, 2, 3, None) if q else (1, 2, 3, 8, 64, None)
+    def plans(L):
+        if L is not None and L <= 8:
+            p = [["nest"]]
+            if L <= 3:
+                p.append(["dfs", "4" if q else "5"])
+        else:
+            # deep executions are judged end to end (the step-by-step machine comparison is quadratic in depth)
+            p = [["E2E", "nest", "0x81" if q else "0xff"], ["rand", "300" if q else "3000"]]
+        return p
+    mcs, tot, samples = _load_check(run, "C19", plans, Ls=Ls, what="nesting limit", mc_cfgs=("MC_Decoder_L1", "MC_Decoder_L2", "MC_Decoder_L3"))
+    # native stack: the same nesting families on a thread with a small fixed stack, optimised build, no sanitizer
+    import concurrent.futures as cf
+    stack_runs = 0
+    for L in Ls:
+        lib = build_lib(run, "o2", L)
+        exe = build_harness(run, lib, "h_load", LOAD_SRC)
+        Lv = L or 2048
+        kb = 64 + 2 * Lv
+        out = run.path("stack-L%s.ndjson" % Lv)
+        open(out, "w").close()
+        st = _record_loads(run, exe, ["--stack", str(kb), "--lean", "nest"], out, "nesting families on a %d KiB stack (L=%d)" % (kb, Lv))
+        stack_runs += st["executed"]
+        with open(out) as f:
+            for l in f:
+                if '"shapefail"' in l:
+                    b = bytes(json.loads(l)["in"])
+                    report_violation(run, "stack-shape L=%d hex=%s" % (Lv, b.hex()[:200]), "pipeline on small stack: outcome shape wrong for %s..." % b.hex()[:80], {"input_hex": b.hex(), "L": Lv})
+    _load_evidence(run, mcs, tot, samples, DISTINCT_RULE + "configurations L in %s built through the repository's CMake option CBOR_MAX_STACK_SIZE; nesting of every container kind (definite/indefinite array and map in key and value position, tags, mixed), innermost scalar / chunked strings, depths L-1, L, L+1, 4L, plus all short token strings for L<=3" % (list(Lv or 2048 for Lv in Ls),),
+                   LOAD_ASSUME + ["native stack use is observed by running the -O2 build on a thread whose stack is 64 KiB + 2 KiB * L (SIGSEGV on an alternate stack is reported as a violation); the specification bounds recursion depth, not bytes per frame"],
+                   {"small_stack_executions": stack_runs})
+
+
+def C14(run):
+    q = run.quick()
+    mc = tlc_mc(run, "MC_Decoder", "MC_Decoder_L2", workers=NCPU)
+    lib = build_lib(run, "dbg")
+    exe = build_harness(run, lib, "h_load", LOAD_SRC)
+    out = run.path("seq.ndjson")
+    open(out, "w").close()
+    st = _record_loads(run, exe, ["seq", "150" if q else "3000"], out, "suffix independence")
+    n = count_lines(out)
+    res = tracecheck(run, "Trace_Sequence", out, boundary=None, env={"VERIF_L": "2048"})
+    _report_rejects(run, res, "suffix independence / sequence splitting",
+                    lambda ln, r: ("suffix x=%s y=%s" % (ln.get("x"), ln.get("y"))) if ln.get("e") == "suffix" else ("seq buf=%s" % (ln.get("buf"),)))
+    kinds = set()
+    with open(out) as f:
+        for l in f:
+            d = json.loads(l)
+            kinds.add((d["e"], tuple((d.get("x") or d.get("buf"))[:3]), d.get("ylen", len(d.get("lens", [])))))
+    write_evidence(run, "model_checking", {
+        "states": mc["distinct"], "transitions": mc["generated"], "traces_validated_against_impl": n - len(res["rejects"]),
+        "samples": _sample_lines(out, 2, lambda l: '"suffix"' in l and '"ylen":1,' in l) + _sample_lines(out, 1, lambda l: '"seq"' in l),
+        "evaluations": n, "distinct_nontrivial": len(kinds),
+        "rule": "one case = (x, y) pair: x a seeded random well-formed item, y empty / every single byte (first 12 x) or 6 random bytes / another item / garbage / structural bytes (break, indefinite start, reserved, huge string head); or one concatenation of 1..6 items split by the cbor_sequence.c loop; distinct = (kind, first 3 bytes, |y| or item count)",
+        "trace_lines_validated_by_TLC": res["lines"], "exhaustive": False},
+        ["expected trees and lengths are computed by TLC from the logged bytes with the reference decoder CborLoadRef (tokenisation + grammar)",
+         "MC_Decoder shows at model level that the machine stops at the first complete item whatever follows (tokens after the return are never consumed)"])
